@@ -6,23 +6,7 @@ cd /verif
 J="${1:-4}"
 OUT=/verif/seeded/SWEEP.txt
 TMPD=$(mktemp -d /tmp/sweep.XXXXXX)
-one() {
-  d="$1"; sid=$(basename "$d")
-  [ -f "$d/patch.diff" ] || exit 0
-  pid=$(python3 -c "import json;print(json.load(open('$d/meta.json'))['breaks_property'])")
-  WT="$TMPD/$sid"
-  git -C /repo worktree add -q --detach "$WT" HEAD || { echo "$sid $pid worktree-failed - -" > "$TMPD/$sid.res"; exit 0; }
-  if git -C "$WT" apply "/verif/$d/patch.diff" 2>/dev/null; then
-    s=$(date +%s)
-    VERIF_PYDREX_SRC="$WT/src" VERIF_EVIDENCE_DIR="$TMPD/ev_$sid" timeout 3600 bin/check "$pid" --tier quick > "$d/check.log" 2>&1; c=$?
-    echo "$sid $pid yes $c $(( $(date +%s) - s ))" > "$TMPD/$sid.res"
-  else
-    echo "$sid $pid no - -" > "$TMPD/$sid.res"
-  fi
-  git -C /repo worktree remove --force "$WT"
-}
-export TMPD
-for d in seeded/*/; do echo "$d"; done | xargs -P "$J" -I{} sh -c "$(typeset -f one 2>/dev/null || declare -f one); one {}"
+for d in seeded/*/; do echo "$d"; done | xargs -P "$J" -I{} tools/sweep_one.sh {} "$TMPD"
 echo "# seed property applies check_exit seconds   ($(date -u +%FT%TZ), repo $(git -C /repo log --format=%h -1), verif $(git log --format=%h -1))" > $OUT
 cat $TMPD/*.res | sort >> $OUT
 rm -rf "$TMPD"; git -C /repo worktree prune
